@@ -21,6 +21,19 @@ fn de<T: DeserializeOwned>(fmt: &str, payload: &[u8]) -> Option<T> {
             .deserialize::<T>(payload)
             .ok(),
         "json" => serde_json::from_slice::<T>(payload).ok(),
+        // the same JSON text through serde_json::Value: its sequence access announces an exact size hint
+        "jsonvalue" => serde_json::from_slice::<serde_json::Value>(payload)
+            .ok()
+            .and_then(|v| serde_json::from_value::<T>(v).ok()),
+        // payload = raw bytes handed to the visitor in the other shapes a data format may choose
+        "seqhint" => {
+            use serde::de::value::{Error, SeqDeserializer};
+            T::deserialize(SeqDeserializer::<_, Error>::new(payload.to_vec().into_iter())).ok()
+        }
+        "bytes" => {
+            use serde::de::value::{BytesDeserializer, Error};
+            T::deserialize(BytesDeserializer::<Error>::new(payload)).ok()
+        }
         _ => panic!("ARG: fmt"),
     }
 }
